@@ -461,6 +461,25 @@ def run_nvram(ctx):
         cut = r.randrange(0, max(len(raw2) - 3, 1))
         lines.append("nvaps %s %s" % (recstr(ent), hx(raw2[:cut])))
         metas.append(("apscut", keys, raw2[:cut]))
+    # strictness of the address map on short input: no strict prefix of a complete dataset decodes (the filler bytes at
+    # the end of the header and of every record are part of the layout)
+    for n in (0, 1, 2, 3):
+        recs = [nvids.NwkAddrMapRecord(ieee_addr=gen.gen(zt.EUI64, r), nwk_addr=zt.NWK(r.getrandbits(16)), index=r.getrandbits(8),
+                                       redirect_type=r.getrandbits(8), redirect_ref=r.getrandbits(8), _align=zt.uint24_t(0)) for _ in range(n)]
+        raw = nvids.DSNwkAddrMap(recs).serialize()
+        for cut in range(len(raw)):
+            ctx.case(("addrcut", n, cut, raw[:cut]), nontrivial=cut > 0)
+            ctx.count("nvram:addr-prefix")
+            try:
+                back, rest = nvids.DSNwkAddrMap.deserialize(raw[:cut])
+            except ValueError:
+                continue
+            except Exception as ex:  # noqa
+                ctx.counterexample("nvram-prefix-raises-other", dict(records=n, bytes=hx(raw), cut=cut), "ValueError", type(ex).__name__,
+                                   "a dataset cut short raises something else than ValueError")
+                continue
+            ctx.counterexample("nvram-prefix-accepted", dict(records=n, bytes=hx(raw), cut=cut), "ValueError",
+                               "%d record(s), rest=%s" % (len(back), hx(rest)), "an address-map dataset cut short is decoded")
     ans = ctx.driver.ask(lines) if ctx.driver else [None] * len(lines)
     for (kind, recs, raw), a in zip(metas, ans):
         T = nvids.DSNwkAddrMap if kind == "addr" else nvids.DSApsSecureKeys
